@@ -51,7 +51,7 @@ Definition a_pred (cs : list (list nat)) (x : nat) : nat := c_prev (fst (ext cs 
 Definition cons_ne (c : list nat) (cs : list (list nat)) : list (list nat) :=
   match c with [] => cs | _ => c :: cs end.
 
-(* Link r s for non-nil s, on the partition *)
+(* the relinking of Link r s (both nodes in the partition) *)
 Definition a_link (cs : list (list nat)) (r s : nat) : list (list nat) :=
   let (c, rest) := ext cs r in
   let A := tl c in
@@ -63,6 +63,10 @@ Definition a_link (cs : list (list nat)) (r s : nat) : list (list nat) :=
 
 Definition a_touch (cs : list (list nat)) (x : nat) : list (list nat) :=
   let (c, rest) := ext cs x in c :: rest.
+
+(* r.Link(s), s non-nil: r.Next() and s.Prev() first make zero Rings one-element rings *)
+Definition a_Link (cs : list (list nat)) (r s : nat) : list (list nat) :=
+  a_link (a_touch (a_touch cs r) s) r s.
 
 Definition a_move (cs : list (list nat)) (r : nat) (n : Z) : nat :=
   if (n <? 0)%Z then Nat.iter (Z.to_nat (- n)) (a_pred cs) r
@@ -104,7 +108,7 @@ Definition rspec_exec (op : rop) (a : rastate) (h : list nat) : rout * rastate *
       | Some r0 =>
           match rhnd h s with
           | None => rs_ret (RA (a_touch cs r0) vs) h (Some (a_succ cs r0))
-          | Some s0 => rs_ret (RA (a_link cs r0 s0) vs) h (Some (a_succ cs r0))
+          | Some s0 => rs_ret (RA (a_Link cs r0 s0) vs) h (Some (a_succ cs r0))
           end
       end
   | RUnlink r n =>
@@ -114,7 +118,7 @@ Definition rspec_exec (op : rop) (a : rastate) (h : list nat) : rout * rastate *
       | Some r0 =>
           let cs1 := a_touch cs r0 in
           let m := a_move cs1 r0 (n + 1) in
-          rs_ret (RA (a_link cs1 r0 m) vs) h (Some (a_succ cs1 r0))
+          rs_ret (RA (a_Link cs1 r0 m) vs) h (Some (a_succ cs1 r0))
       end
   | RLen r =>
       match rhnd h r with
